@@ -1,7 +1,12 @@
 import LP.Props.C11
+import LP.Props.C11Roots
 #print axioms LP.Eval.C11_sign_change_root
 #print axioms LP.Eval.C11_identically_zero
 #print axioms LP.Eval.C10_sign_interval_only
 #print axioms LP.Eval.C10_sign_sound
 #print axioms LP.QPoly.realRoots_sound
 #print axioms LP.Alg.cmp_sound
+#print axioms LP.Eval.elimY_root
+#print axioms LP.Eval.isRootAt_sound
+#print axioms LP.realRoots_isolates
+#print axioms LP.Eval.C11_rootsUnder_exact
